@@ -30,9 +30,9 @@ Chars(s) == s   \* words are written as tuples of one-character strings
 
 \* (the Avro transliteration is case sensitive: kI / paTa / ekTa differ from ki / pata / ekta)
 Bases    == {<<"a","s">>, <<"o","n","n","o">>, <<"a",":">>, <<"k","k","h","e","t">>, <<"k","I">>, <<"p","a","T","a">>, <<"e","k","T","a">>}
-Sfx      == {<<>>, <<"e">>, <<"g","u","l","o">>, <<"r">>, <<"e","r">>}
-Pres     == {<<>>, <<"(">>, <<"\"">>}
-Posts    == {<<>>, <<".">>, <<":">>, <<"`">>, <<"\"">>}
+Sfx      == IF Cfgs = "quick" THEN {<<>>, <<"e">>, <<"g","u","l","o">>, <<"r">>} ELSE {<<>>, <<"e">>, <<"g","u","l","o">>, <<"r">>, <<"e","r">>}
+Pres     == IF Cfgs = "quick" THEN {<<>>, <<"(">>} ELSE {<<>>, <<"(">>, <<"\"">>}
+Posts    == IF Cfgs = "quick" THEN {<<>>, <<".">>, <<":">>, <<"`">>} ELSE {<<>>, <<".">>, <<":">>, <<"`">>, <<"\"">>}
 \* the suffix keys of suffix.json that can occur as remainders of the targets above
 SuffixKeys == {<<"e">>, <<"g","u","l","o">>, <<"r">>, <<"e","r">>, <<"o">>, <<"l","o">>, <<"t">>, <<"s">>}
 PriorWords == {<<"a","s">>, <<"o","n","n","o","g","u","l","o">>, <<"a",":">>, <<"(","a","s",")">>, <<"k","k","h","e","t","r">>,
